@@ -100,8 +100,24 @@ func canonModel(ans string) (outcome, file, trace string, err error) {
 }
 
 // traceRules checks the protocol rules of C06/C07 directly on an observed trace.
-func traceRules(evs []sysEvent, callFlags int, haveFlags bool) []string {
+func traceRules(evs []sysEvent, callFlags int, haveFlags bool, result string) []string {
 	var bad []string
+	// a call that reported success must have taken its lock before it returned: a
+	// successful openat followed by a successful flock(LOCK_SH|LOCK_EX) on that descriptor
+	if result == "ok" || strings.HasPrefix(result, "data:") {
+		opened, lockedOnce := false, false
+		for _, e := range evs {
+			if e.Name == "openat" && !e.Err {
+				opened = true
+			}
+			if e.Name == "flock" && !e.Err && opened && (e.Arg == "LOCK_EX" || e.Arg == "LOCK_SH") {
+				lockedOnce = true
+			}
+		}
+		if opened && !lockedOnce {
+			bad = append(bad, fmt.Sprintf("no-lock-taken flags=%d", callFlags))
+		}
+	}
 	locked := ""
 	everLocked := false
 	for _, e := range evs {
@@ -190,12 +206,18 @@ func protoCases(rng *common.RNG, tier, prop string) []protoCase {
 			for _, tr := range []int{0, os.O_TRUNC} {
 				for _, ex := range []int{0, os.O_EXCL} {
 					for _, ap := range []int{0, os.O_APPEND} {
-						fl := acc | cr | tr | ex | ap
-						if tier == "quick" && (acc == 3 || ap != 0) && rng.Intn(3) != 0 {
-							continue
-						}
-						for _, f := range []string{"absent", "616263646566"} {
-							cs = append(cs, protoCase{"openfile", strconv.Itoa(fl), f})
+						for _, sy := range []int{0, os.O_SYNC} {
+							fl := acc | cr | tr | ex | ap | sy
+							exclCreate := cr != 0 && ex != 0 && acc != 3
+							if tier == "quick" && !exclCreate && (acc == 3 || ap != 0 || sy != 0) && rng.Intn(4) != 0 {
+								continue
+							}
+							if tier == "quick" && exclCreate && ap != 0 && sy != 0 && tr != 0 {
+								continue
+							}
+							for _, f := range []string{"absent", "616263646566"} {
+								cs = append(cs, protoCase{"openfile", strconv.Itoa(fl), f})
+							}
 						}
 					}
 				}
@@ -237,7 +259,7 @@ func runProtoCase(self, work string, m *common.Model, c protoCase, inject string
 	}
 	impl = result + " " + getFile(path) + " | " + tr
 	fl, ok := flagsOfCall(c)
-	rules = traceRules(evs, fl, ok)
+	rules = traceRules(evs, fl, ok, result)
 	if m != nil && inject == "" {
 		ans := m.Ask1(fmt.Sprintf("ops %s %s %s", c.Call, c.Arg, c.File))
 		o, f, t, e := canonModel(ans)
